@@ -279,6 +279,49 @@ def crash_family(ctx, r):
                 Kth += 1 if (ctx.thorough() or call == "rename" or Kth < 6) else 7
 
 
+def rerun_family(ctx, r):
+    """(v) a successful run into a dump folder that an earlier FAILED run used: the earlier run is killed on entry to its first
+    rename (all rows flushed, every *.tmp left behind, long), then a run over a shorter range goes into the same folder; exit 0
+    must still mean: finals identical to an undisturbed run in a fresh folder, no *.tmp left"""
+    import copy
+    for cb in FILE_CBS:
+        for rep in range(ctx.n(1, 4)):
+            s = scenario(r, cb, n=r.randrange(5, 8))
+            small = copy.copy(s)
+            small.stop = 1
+            ref = undisturbed(small)
+            base = C.scratch()
+            try:
+                d, dump = os.path.join(base, "data"), os.path.join(base, "dump")
+                s.write_dir(d)
+                os.makedirs(dump)
+                tmp0 = {"csvdump": "blocks.csv.tmp", "unspentcsvdump": "unspent.csv.tmp", "balances": "balances.csv.tmp"}[cb]
+                # -P restricts the injection to syscalls naming this dump file (LevelDB renames its own files at start-up)
+                first = s.run_impl(datadir=d, dump=dump, wrapper=["strace", "-f", "-o", "/dev/null", "-P", os.path.join(dump, tmp0), "-e", "trace=rename", "-e", "inject=rename:signal=KILL:when=1"])
+                left = sorted(n for n in first.files if n.endswith(".tmp"))
+                second = small.run_impl(datadir=d, dump=dump)
+            finally:
+                C.rmtree(base)
+            ctx.families["rerun-after-failure"] += 1
+            ctx.mark(("rerun", cb, rep), bool(left))
+            problems = []
+            if not left or first.exit == 0:
+                ctx.notes.append("rerun-after-failure: the earlier run was not killed as planned (exit %s, left %s)" % (first.exit, left))
+            if second.exit != 0:
+                problems.append(("exit", second.exit, 0))
+            for n, want in ref.final_files().items():
+                got = second.files.get(n)
+                same = (got == want) if cb == "csvdump" else (got is not None and sorted(got.splitlines()) == sorted(want.splitlines()) and got.endswith(b"\n"))
+                if not same:
+                    problems.append(("final-differs-from-undisturbed-run", n, {"size": None if got is None else len(got), "expected": len(want)}))
+            if [n for n in second.files if n.endswith(".tmp")]:
+                problems.append(("tmp-left", sorted(n for n in second.files if n.endswith(".tmp")), None))
+            if problems:
+                ctx.disagree("rerun-after-failure", dict(bb.describe(small), earlier_run="killed at first rename; left %s" % left),
+                             {"problems": [list(map(str, p)) for p in problems[:4]], "exit": second.exit}, {"expected": "finals identical to an undisturbed run, no tmp"}, True,
+                             {"scenario": bb.scenario_dump(small), "observable": problems[0][0]})
+
+
 def input_fault_family(ctx, r):
     """(iv) unreadable blocks"""
     for cb in FILE_CBS:
@@ -374,6 +417,7 @@ def correspondence(ctx):
     write_fault_family(ctx, r)
     crash_family(ctx, r)
     input_fault_family(ctx, r)
+    rerun_family(ctx, r)
 
 
 def replay(ctx, rep, corpus=None):
